@@ -80,18 +80,30 @@ def tables() -> str:
     # delivery_hour = -1
     cp = _find_func(_find_class(_parse("parsers/creation/campaignparser.py"), "CampaignParser"), "parse")
     msg_keys, langs, hours = [], [], []
+
+    def int_consts(v):
+        """integer literals (incl. negated) in an expression, not looking inside calls"""
+        if isinstance(v, ast.Constant) and isinstance(v.value, int) and not isinstance(v.value, bool):
+            return [v.value]
+        if isinstance(v, ast.UnaryOp) and isinstance(v.op, ast.USub) and isinstance(v.operand, ast.Constant) and isinstance(v.operand.value, int):
+            return [-v.operand.value]
+        if isinstance(v, ast.IfExp):
+            return int_consts(v.body) + int_consts(v.orelse)
+        return []
+
     for n in ast.walk(cp):
         if isinstance(n, ast.Assign) and len(n.targets) == 1 and isinstance(n.targets[0], ast.Name):
             t, v = n.targets[0].id, n.value
-            if t == "message" and isinstance(v, ast.Dict):
-                msg_keys += [ast.literal_eval(k) for k in v.keys]
-            if t == "base_language" and isinstance(v, ast.BoolOp) and isinstance(v.op, ast.Or):
-                langs.append(ast.literal_eval(v.values[-1]))
+            if t == "message":
+                for d in ast.walk(v):
+                    if isinstance(d, ast.Dict):
+                        msg_keys += [ast.literal_eval(k) for k in d.keys]
+            if t == "base_language":
+                for b in ast.walk(v):
+                    if isinstance(b, ast.BoolOp) and isinstance(b.op, ast.Or) and isinstance(b.values[-1], ast.Constant):
+                        langs.append(b.values[-1].value)
             if t == "delivery_hour":
-                try:
-                    hours.append(ast.literal_eval(v))
-                except ValueError:
-                    pass
+                hours += int_consts(v)
     assert len(msg_keys) == 1 and len(langs) == 1 and len(hours) == 1, (msg_keys, langs, hours)
     assert isinstance(hours[0], int)
 
